@@ -118,6 +118,7 @@ func (fx *Facts) errNilness(ap *APath, o ssa.Value) (isNil, isNonNil bool) {
 
 func checkC06(cx *Ctx, r *Report) {
 	w, fx := cx.W, cx.Fx
+	cx.checkProviderFromStorage(r, kSSO)
 	// request data must not be shared between requests through recycled buffers (R-POOL, see C15)
 	cx.checkPoolEscape(r)
 	r.Clauses = []string{
@@ -236,98 +237,7 @@ func checkC06(cx *Ctx, r *Report) {
 	}
 
 	// --- required content -----------------------------------------------------------------
-	if k.content != nil {
-		cl := cx.followDelegation(k.content.Fn("logic"))
-		aps, ok := fx.atomPaths(cl, 8192)
-		if !ok || cl == nil {
-			r.Undecided("R-GUARD", "checkRequestRequiredContent", k.content.Pos, "closure not resolved / too many paths")
-		} else {
-			type cond struct {
-				name string
-				ok   func(p *APath) bool
-			}
-			conds := []cond{
-				{"ID non-empty", func(p *APath) bool { return p.has("EMPTY", "<samlp.AuthnRequestType>.Id", true) }},
-				{"Version non-empty", func(p *APath) bool { return p.has("EMPTY", "<samlp.AuthnRequestType>.Version", true) }},
-				{"Issuer non-empty", func(p *APath) bool { return p.has("EMPTY", "<samlp.AuthnRequestType>.Issuer.Text", true) }},
-				{"Issuer equals the service provider's entity ID", func(p *APath) bool {
-					for _, a := range p.Atoms {
-						if a.Op == "EQ" && !a.Neg && (strings.HasSuffix(a.TA, "<samlp.AuthnRequestType>.Issuer.Text") && strings.HasSuffix(a.B, "ServiceProvider).GetEntityID") || strings.HasSuffix(a.TB, "<samlp.AuthnRequestType>.Issuer.Text") && strings.HasSuffix(a.A, "ServiceProvider).GetEntityID")) {
-							return true
-						}
-					}
-					return false
-				}},
-				{"Destination verified", func(p *APath) bool {
-					for _, a := range p.Atoms {
-						if a.Op == "NIL" && !a.Neg && strings.HasSuffix(a.A, "provider.verifyRequestDestinationOfAuthRequest") {
-							return true
-						}
-					}
-					return false
-				}},
-				{"Conditions window verified when a bound is present", func(p *APath) bool {
-					if p.has("NIL", "<samlp.AuthnRequestType>.Conditions", false) {
-						return true
-					}
-					if p.has("EMPTY", "<samlp.AuthnRequestType>.Conditions.NotOnOrAfter", false) && p.has("EMPTY", "<samlp.AuthnRequestType>.Conditions.NotBefore", false) {
-						return true
-					}
-					for _, a := range p.Atoms {
-						if a.Op == "NIL" && !a.Neg {
-							if c, isCall := nilTestedCall(a.Cond); isCall && cx.isTimeCheckCall(c, "<samlp.AuthnRequestType>.Conditions.NotBefore", "<samlp.AuthnRequestType>.Conditions.NotOnOrAfter") {
-								return true
-							}
-						}
-					}
-					return false
-				}},
-			}
-			nAccept := 0
-			for i := range aps {
-				p := &aps[i]
-				rv := fx.retVal(p, 0)
-				isNil, nonNil := fx.errNilness(p, rv)
-				// a verdict handed through (`return verifyX(...)`) may be nil: the path is an accepting candidate,
-				// and the condition that call verifies counts as established
-				tail := ""
-				if rc, isCall := rv.(*ssa.Call); isCall && !isNil && !nonNil {
-					if f := calleeOf(rc); f != nil && w.FuncKey(f) == "provider.verifyRequestDestinationOfAuthRequest" {
-						tail = "Destination verified"
-					} else if cx.isTimeCheckCall(rc, "<samlp.AuthnRequestType>.Conditions.NotBefore", "<samlp.AuthnRequestType>.Conditions.NotOnOrAfter") {
-						tail = "Conditions window verified when a bound is present"
-					} else {
-						tail = "?"
-					}
-				}
-				if !isNil && tail == "" {
-					continue
-				}
-				nAccept++
-				for _, c := range conds {
-					if c.name == tail {
-						continue
-					}
-					if !c.ok(p) {
-						r.Fail("R-GUARD", "checkRequestRequiredContent:"+c.name, w.InstrPos(p.Ret), "the content check can accept a request without having established: "+c.name+" (path: "+atomsString(p.Atoms)+")")
-					}
-				}
-			}
-			for _, c := range conds {
-				r.Ok("R-GUARD", "checkRequestRequiredContent:"+c.name, w.FnPos(cl), fmt.Sprintf("established on each of the %d accepting paths", nAccept))
-			}
-			if nAccept == 0 {
-				r.Fail("R-GUARD", "checkRequestRequiredContent", w.FnPos(cl), "no accepting path found")
-			}
-			// the SP whose entity ID is compared is the looked-up one, the request the decoded one
-			for _, c := range callsIn(cl) {
-				if f := calleeOf(c); f != nil && w.FuncKey(f) == "serviceprovider.(*ServiceProvider).GetEntityID" {
-					l := vf.Labels(c.Common().Args[0])
-					r.checkSources("R-VFG", "content:sp", w.InstrPos(c), l, []string{"ext:iface:provider.IDPStorage.GetEntityByID#0"}, []string{"ext:iface:provider.IDPStorage.GetEntityByID#0"}, true)
-				}
-			}
-		}
-	}
+	cx.checkRequiredContent(r, k, vf)
 	// --- destination ---------------------------------------------------------------------
 	cx.checkDestination(r, "provider.verifyRequestDestinationOfAuthRequest", "SingleSignOnService")
 	cx.checkDestinationContent(r, kSSO, "sso", "provider.verifyRequestDestinationOfAuthRequest")
@@ -771,6 +681,33 @@ func (cx *Ctx) checkDestinationAccepts(r *Report, fnKey string) {
 		}
 		if isNil && matched {
 			sawMatch = true
+			// the match must not hinge on other parts of the request (`endpoint.Binding == request.ProtocolBinding &&
+			// endpoint.Location == request.Destination`): a request addressed to the advertised location is then
+			// refused for an attribute that has nothing to do with where it was sent
+			for _, a := range p.Atoms {
+				if a.Op != "EQ" || a.Neg {
+					continue
+				}
+				// only what this function (or the helper it hands the decision to) tests - not what its callers
+				// have established before calling it
+				own := false
+				if in, isIn := a.Cond.(ssa.Instruction); isIn && in.Parent() != nil {
+					own = in.Parent() == fn
+					for _, c := range callsIn(fn) {
+						if g := calleeOf(c); g != nil && g == in.Parent() {
+							own = true
+						}
+					}
+				}
+				if !own {
+					continue
+				}
+				for _, t := range []string{a.TA, a.TB} {
+					if strings.HasPrefix(t, "<samlp.") && !isDest(t) {
+						bad = "a request whose Destination equals an advertised location is accepted only if " + a.String() + " holds as well: conformant requests are refused for a reason unrelated to their destination"
+					}
+				}
+			}
 		}
 		if nonNil || !isNil {
 			if !named {
@@ -1113,4 +1050,102 @@ func (cx *Ctx) createsDecompressor(fn *ssa.Function, depth int) bool {
 		}
 	}
 	return false
+}
+
+// checkRequiredContent: every accepting path of the content step has established ID, Version and Issuer non-empty,
+// Issuer equal to the entity ID of the looked-up provider, the Destination check and the Conditions window.
+func (cx *Ctx) checkRequiredContent(r *Report, k *ssoKeys, vf *VFlow) {
+	w, fx := cx.W, cx.Fx
+	if k.content != nil {
+		cl := cx.followDelegation(k.content.Fn("logic"))
+		aps, ok := fx.atomPaths(cl, 8192)
+		if !ok || cl == nil {
+			r.Undecided("R-GUARD", "checkRequestRequiredContent", k.content.Pos, "closure not resolved / too many paths")
+		} else {
+			type cond struct {
+				name string
+				ok   func(p *APath) bool
+			}
+			conds := []cond{
+				{"ID non-empty", func(p *APath) bool { return p.has("EMPTY", "<samlp.AuthnRequestType>.Id", true) }},
+				{"Version non-empty", func(p *APath) bool { return p.has("EMPTY", "<samlp.AuthnRequestType>.Version", true) }},
+				{"Issuer non-empty", func(p *APath) bool { return p.has("EMPTY", "<samlp.AuthnRequestType>.Issuer.Text", true) }},
+				{"Issuer equals the service provider's entity ID", func(p *APath) bool {
+					for _, a := range p.Atoms {
+						if a.Op == "EQ" && !a.Neg && (strings.HasSuffix(a.TA, "<samlp.AuthnRequestType>.Issuer.Text") && strings.HasSuffix(a.B, "ServiceProvider).GetEntityID") || strings.HasSuffix(a.TB, "<samlp.AuthnRequestType>.Issuer.Text") && strings.HasSuffix(a.A, "ServiceProvider).GetEntityID")) {
+							return true
+						}
+					}
+					return false
+				}},
+				{"Destination verified", func(p *APath) bool {
+					for _, a := range p.Atoms {
+						if a.Op == "NIL" && !a.Neg && strings.HasSuffix(a.A, "provider.verifyRequestDestinationOfAuthRequest") {
+							return true
+						}
+					}
+					return false
+				}},
+				{"Conditions window verified when a bound is present", func(p *APath) bool {
+					if p.has("NIL", "<samlp.AuthnRequestType>.Conditions", false) {
+						return true
+					}
+					if p.has("EMPTY", "<samlp.AuthnRequestType>.Conditions.NotOnOrAfter", false) && p.has("EMPTY", "<samlp.AuthnRequestType>.Conditions.NotBefore", false) {
+						return true
+					}
+					for _, a := range p.Atoms {
+						if a.Op == "NIL" && !a.Neg {
+							if c, isCall := nilTestedCall(a.Cond); isCall && cx.isTimeCheckCall(c, "<samlp.AuthnRequestType>.Conditions.NotBefore", "<samlp.AuthnRequestType>.Conditions.NotOnOrAfter") {
+								return true
+							}
+						}
+					}
+					return false
+				}},
+			}
+			nAccept := 0
+			for i := range aps {
+				p := &aps[i]
+				rv := fx.retVal(p, 0)
+				isNil, nonNil := fx.errNilness(p, rv)
+				// a verdict handed through (`return verifyX(...)`) may be nil: the path is an accepting candidate,
+				// and the condition that call verifies counts as established
+				tail := ""
+				if rc, isCall := rv.(*ssa.Call); isCall && !isNil && !nonNil {
+					if f := calleeOf(rc); f != nil && w.FuncKey(f) == "provider.verifyRequestDestinationOfAuthRequest" {
+						tail = "Destination verified"
+					} else if cx.isTimeCheckCall(rc, "<samlp.AuthnRequestType>.Conditions.NotBefore", "<samlp.AuthnRequestType>.Conditions.NotOnOrAfter") {
+						tail = "Conditions window verified when a bound is present"
+					} else {
+						tail = "?"
+					}
+				}
+				if !isNil && tail == "" {
+					continue
+				}
+				nAccept++
+				for _, c := range conds {
+					if c.name == tail {
+						continue
+					}
+					if !c.ok(p) {
+						r.Fail("R-GUARD", "checkRequestRequiredContent:"+c.name, w.InstrPos(p.Ret), "the content check can accept a request without having established: "+c.name+" (path: "+atomsString(p.Atoms)+")")
+					}
+				}
+			}
+			for _, c := range conds {
+				r.Ok("R-GUARD", "checkRequestRequiredContent:"+c.name, w.FnPos(cl), fmt.Sprintf("established on each of the %d accepting paths", nAccept))
+			}
+			if nAccept == 0 {
+				r.Fail("R-GUARD", "checkRequestRequiredContent", w.FnPos(cl), "no accepting path found")
+			}
+			// the SP whose entity ID is compared is the looked-up one, the request the decoded one
+			for _, c := range callsIn(cl) {
+				if f := calleeOf(c); f != nil && w.FuncKey(f) == "serviceprovider.(*ServiceProvider).GetEntityID" {
+					l := vf.Labels(c.Common().Args[0])
+					r.checkSources("R-VFG", "content:sp", w.InstrPos(c), l, []string{"ext:iface:provider.IDPStorage.GetEntityByID#0"}, []string{"ext:iface:provider.IDPStorage.GetEntityByID#0"}, true)
+				}
+			}
+		}
+	}
 }
